@@ -124,11 +124,28 @@ Fan(m) == [n |-> m + 2, owner |-> [s \in 1..(m + 2) |-> PR], reward |-> [s \in 1
            final |-> <<m + 2>>]
 Slow2000 == [n |-> 3, owner |-> <<PR, PR, PR>>, reward |-> <<1, 0, 0>>,
              tr |-> << <<Tr("", 1998, 1), Tr("", 1, 2), Tr("", 1, 3)>>, <<Tr("", 1, 2)>>, <<Tr("", 1, 3)>> >>, final |-> <<3>>]
+TwinEdges(o) ==
+    [n |-> 5, owner |-> <<o, PR, PR, PR, PR>>, reward |-> <<0, 3, 1, 0, 0>>,
+     tr |-> << IF o = P1 THEN <<Tr("go", 0, 2), Tr("go", 0, 3), Tr("stay", 0, 4)>> ELSE <<Tr("go", 0, 2), Tr("go", 0, 3)>>,
+               <<Tr("", 1, 5)>>, <<Tr("", 1, 5)>>, <<Tr("", 1, 4)>>, <<Tr("", 1, 5)>> >>, final |-> <<5>>]
+SureOrphan(o) ==
+    [n |-> 3, owner |-> <<PR, PR, o>>, reward |-> <<1, 0, 5>>,
+     tr |-> << <<Tr("", 1, 2)>>, <<Tr("", 1, 2)>>,
+               IF o = PR THEN <<Tr("", 1, 2)>> ELSE <<Tr("on", 0, 2), Tr("back", 0, 1)>> >>, final |-> <<2>>]
 Scale == { << [name |-> "slow_2000", kind |-> "ok", tg |-> Tagged(Slow2000)],
               [name |-> "fan_1200", kind |-> "ok", tg |-> Tagged(Fan(1200))],
               [name |-> "tiny", kind |-> "ok", tg |-> Tiny13b] >>,
            << [name |-> "dead_players", kind |-> "okdead", tg |-> Tagged(DeadPlayers)],
-              [name |-> "orphan_1", kind |-> "ok", tg |-> Tagged(Orphan)] >> }
+              [name |-> "orphan_1", kind |-> "ok", tg |-> Tagged(Orphan)] >>,
+           \* one action name on two transitions (legal: names need only be strings): the
+           \* reachability strategy lists the name twice, the final strategy once, so the two
+           \* lists differ although they hold the same names
+           << [name |-> "twin_edges_4", kind |-> "ok", tg |-> Tagged(TwinEdges(P1))],
+              [name |-> "twin_edges_p2", kind |-> "ok", tg |-> Tagged(TwinEdges(P2))] >>,
+           \* every state reaches the goal surely (all probabilities exactly 1), and state 3 is
+           \* an orphan with a reward: the pruned run clears it, the unpruned run must not
+           << [name |-> "sure_orphan", kind |-> "ok", tg |-> Tagged(SureOrphan(PR))],
+              [name |-> "sure_orphan_p2", kind |-> "ok", tg |-> Tagged(SureOrphan(P2))] >> }
 
 BatchCases ==
     LET base == (IF Family = "all" THEN AllDicts ELSE RandomSubset(K, AllDicts)) \cup Twins \cup OwnFlag \cup Scale
